@@ -6,5 +6,5 @@ import (
 )
 
 func extraProps() []core.Property {
-	return []core.Property{props.C01{}, props.C03{}, props.C04{}, props.C02{}, props.C06{}, props.C05{}, props.C13{}, props.C10{}, props.C07{}, props.C16{}, props.C09{}, props.C08{}}
+	return []core.Property{props.C01{}, props.C03{}, props.C04{}, props.C02{}, props.C06{}, props.C05{}, props.C13{}, props.C10{}, props.C07{}, props.C16{}, props.C09{}, props.C08{}, props.C15{}, props.C11{}, props.C12{}}
 }
